@@ -5,12 +5,15 @@ Protos == {"connect", "grpc", "grpcweb"}
 SizeSeqs(k) == IF k \in {"unary", "server"} THEN { <<3>>, <<9>> }
                ELSE { <<3>>, <<3, 9>>, <<9, 3, 3>> }
 MCInit == \E p \in Protos, k \in {"unary", "client", "server", "bidi"}, f \in {"err", "ctxc", "ctxd"} :
-            \E sz \in SizeSeqs(k) : \E c \in 0..(EndOf([sizes |-> sz], Len(sz)) + 1) :
+            \E sz \in SizeSeqs(k) : \E c \in 0..(EndOf([sizes |-> sz, kind |-> k], Len(sz)) + 1) :
               InitWith([proto |-> p, kind |-> k, sizes |-> sz, cut |-> c, fault |-> f, poison |-> 0])
 PoisonInit == \E p \in Protos, k \in {"unary", "client", "server", "bidi"} :
                 \E sz \in SizeSeqs(k) : \E i \in 1..Len(sz) :
                   InitWith([proto |-> p, kind |-> k, sizes |-> sz, cut |-> 1000, fault |-> "err", poison |-> i])
-MCSpec == (MCInit \/ PoisonInit) /\ [][Next]_vars
-GenSpec == (MCInit \/ PoisonInit) /\ [][FALSE]_vars
+\* handler side: the ResponseWriter accepts `cut` Write calls and refuses the rest
+HandlerInit == \E p \in Protos, k \in {"hserver", "hbidi"}, n \in 1..3 : \E c \in 0..(2 * n + 2) :
+                 InitWith([proto |-> p, kind |-> k, sizes |-> [i \in 1..n |-> 1], cut |-> c, fault |-> "werr", poison |-> 0])
+MCSpec == (MCInit \/ PoisonInit \/ HandlerInit) /\ [][Next]_vars
+GenSpec == (MCInit \/ PoisonInit \/ HandlerInit) /\ [][FALSE]_vars
 Emit == PrintT(ToJson(sc))
 =============================================================================
